@@ -142,6 +142,196 @@ theorem welford_is_variance (l : List α) (h : l ≠ []) :
     varCol 0 l = (l.map fun x => (x - meanCol l) * (x - meanCol l)).sum / (l.length : α) :=
   varCol_textbook l h
 
+
+/-! ### min-max -/
+
+/-- **min-max scaling maps every column the guard treats as non-constant
+(`eps < max - min`) onto the requested range `[lo, hi]`, both ends attained**
+(at the column's minimum resp. maximum); fitting succeeds for `lo ≤ hi` on non-empty data. -/
+theorem minmax_range_attained (eps : α) (h0 : 0 ≤ eps) (p : Nat) (rows : List (List α)) (lo hi : α)
+    (hlohi : lo ≤ hi) (hn : rows ≠ []) (hrows : ∀ r ∈ rows, r.length = p) (j : Nat) (hj : j < p)
+    (hguard : eps < maxCol (col rows j) - minCol (col rows j)) :
+    ∃ sc y, fitMinMax eps p rows lo hi = .ok sc ∧ transform sc p rows = some y ∧
+      (∀ v ∈ col y j, lo ≤ v ∧ v ≤ hi) ∧ lo ∈ col y j ∧ hi ∈ col y j := by
+  have hlen : ¬ rows.length = 0 := by
+    intro h; exact hn (List.length_eq_zero_iff.mp h)
+  let sc : Scaler α :=
+    { offsets := (cols p rows).map minCol
+      scales := (cols p rows).map (fun c => invOrOne eps (maxCol c - minCol c))
+      method := .minMax lo hi }
+  have hfit : fitMinMax eps p rows lo hi = .ok sc := by
+    unfold fitMinMax; rw [if_neg hlen, if_neg (not_lt.mpr hlohi)]
+  have ho : sc.offsets.length = p := by simp [sc, cols]
+  have hs : sc.scales.length = p := by simp [sc, cols]
+  refine ⟨sc, rows.map (transformRow sc), hfit, transform_some sc p rows ho hrows, ?_⟩
+  rw [col_map_transformRow sc p rows ho hs hrows j hj]
+  have hoj : sc.offsets.getD j 0 = minCol (col rows j) := getD_cols_map minCol p rows j hj
+  have hsj : sc.scales.getD j 0 = invOrOne eps (maxCol (col rows j) - minCol (col rows j)) :=
+    getD_cols_map (fun c => invOrOne eps (maxCol c - minCol c)) p rows j hj
+  rw [hoj, hsj, invOrOne_of_gt eps _ h0 hguard]
+  have hc := col_ne_nil rows j hn
+  obtain ⟨hmin, hminmem⟩ := minCol_spec (col rows j) hc
+  obtain ⟨hmax, hmaxmem⟩ := maxCol_spec (col rows j) hc
+  generalize minCol (col rows j) = mn at *
+  generalize maxCol (col rows j) = mx at *
+  have hd : 0 < mx - mn := lt_of_le_of_lt h0 hguard
+  simp only [sc, transformCell]
+  refine ⟨?_, ?_, ?_⟩
+  · intro v hv
+    obtain ⟨x, hx, rfl⟩ := List.mem_map.mp hv
+    have h1 : 0 ≤ (x - mn) * (1 / (mx - mn)) :=
+      mul_nonneg (sub_nonneg.mpr (hmin x hx)) (by positivity)
+    have h2 : (x - mn) * (1 / (mx - mn)) ≤ 1 := by
+      rw [mul_one_div, div_le_one hd]; linarith [hmax x hx]
+    have h3 : 0 ≤ hi - lo := sub_nonneg.mpr hlohi
+    constructor
+    · nlinarith [mul_nonneg h1 h3]
+    · nlinarith [mul_le_mul_of_nonneg_right h2 h3]
+  · exact List.mem_map.mpr ⟨mn, hminmem, by ring⟩
+  · refine List.mem_map.mpr ⟨mx, hmaxmem, ?_⟩
+    field_simp; ring
+
+/-! ### max-abs -/
+
+/-- **max-abs scaling gives every column the guard treats as non-zero (`eps < max|x|`)
+maximum absolute value one**: all outputs lie in `[-1, 1]` and `1` is attained. -/
+theorem maxabs_one (eps : α) (h0 : 0 ≤ eps) (p : Nat) (rows : List (List α))
+    (hn : rows ≠ []) (hrows : ∀ r ∈ rows, r.length = p) (j : Nat) (hj : j < p)
+    (hguard : eps < normMax (col rows j)) :
+    ∃ sc y, fitMaxAbs eps p rows = .ok sc ∧ transform sc p rows = some y ∧
+      (∀ v ∈ col y j, |v| ≤ 1) ∧ (∃ v ∈ col y j, |v| = 1) ∧ normMax (col y j) = 1 := by
+  have hlen : ¬ rows.length = 0 := by
+    intro h; exact hn (List.length_eq_zero_iff.mp h)
+  let sc : Scaler α :=
+    { offsets := (cols p rows).map (fun _ => 0)
+      scales := (cols p rows).map (fun c => invOrOne eps (normMax c))
+      method := .maxAbs }
+  have hfit : fitMaxAbs eps p rows = .ok sc := by
+    unfold fitMaxAbs; rw [if_neg hlen]
+  have ho : sc.offsets.length = p := by simp [sc, cols]
+  have hs : sc.scales.length = p := by simp [sc, cols]
+  refine ⟨sc, rows.map (transformRow sc), hfit, transform_some sc p rows ho hrows, ?_⟩
+  rw [col_map_transformRow sc p rows ho hs hrows j hj]
+  have hoj : sc.offsets.getD j 0 = 0 := getD_cols_map (fun _ => (0 : α)) p rows j hj
+  have hsj : sc.scales.getD j 0 = invOrOne eps (normMax (col rows j)) :=
+    getD_cols_map (fun c => invOrOne eps (normMax c)) p rows j hj
+  rw [hoj, hsj, invOrOne_of_gt eps _ h0 hguard]
+  obtain ⟨_, hle, hatt⟩ := normMax_spec (col rows j)
+  generalize normMax (col rows j) = N at *
+  have hN : 0 < N := lt_of_le_of_lt h0 hguard
+  simp only [sc, transformCell, sub_zero]
+  have hall : ∀ v ∈ (col rows j).map (fun x => x * (1 / N)), |v| ≤ 1 := by
+    intro v hv
+    obtain ⟨x, hx, rfl⟩ := List.mem_map.mp hv
+    rw [mul_one_div, abs_div, abs_of_pos hN, div_le_one hN]; exact hle x hx
+  have hex : ∃ v ∈ (col rows j).map (fun x => x * (1 / N)), |v| = 1 := by
+    rcases hatt with h | ⟨x, hx, h⟩
+    · exact absurd h hN.ne'
+    · refine ⟨x * (1 / N), List.mem_map.mpr ⟨x, hx, rfl⟩, ?_⟩
+      rw [mul_one_div, abs_div, abs_of_pos hN, ← h]; exact div_self hN.ne'
+  refine ⟨hall, hex, ?_⟩
+  obtain ⟨_, hle', hatt'⟩ := normMax_spec ((col rows j).map (fun x => x * (1 / N)))
+  obtain ⟨v, hv, hv1⟩ := hex
+  have hge : 1 ≤ normMax ((col rows j).map (fun x => x * (1 / N))) := le_trans hv1.ge (hle' v hv)
+  rcases hatt' with h | ⟨w, hw, h⟩
+  · rw [h] at hge; linarith
+  · exact le_antisymm (by rw [h]; exact hall w hw) hge
+
 end linear
+
+/-! ### norm scaler -/
+section norm
+variable {α : Type} [Field α] [LinearOrder α] [IsStrictOrderedRing α] [Transc α]
+
+theorem normL1_eq (r : List α) : normL1 r = (r.map fun x => |x|).sum := by
+  unfold normL1; rw [sumS_eq]; congr 1; apply List.map_congr_left; intro x _; exact absS_eq x
+
+theorem sumSquares_eq (r : List α) : sumSquares r = (r.map fun x => x * x).sum := by
+  unfold sumSquares; rw [sumS_eq]
+
+/-- a row with a non-zero entry has positive norm (so it is scaled, not skipped) -/
+theorem rowNorm_pos (hsq : SqrtContract α) (k : NormKind) (r : List α) (h : ∃ x ∈ r, x ≠ 0) :
+    0 < rowNorm k r := by
+  cases k
+  · show 0 < normL1 r
+    rw [normL1_eq]; exact sum_abs_pos r h
+  · show 0 < normL2 r
+    unfold normL2; rw [sumSquares_eq]; exact sqrt_pos_of hsq _ (sum_sq_pos r h)
+  · show 0 < normMax r
+    obtain ⟨x, hx, hx0⟩ := h
+    exact lt_of_lt_of_le (abs_pos.mpr hx0) ((normMax_spec r).2.1 x hx)
+
+/-- **norm scaling gives every non-zero row unit norm in the chosen norm** (L1, L2, max) -/
+theorem norm_unit (hsq : SqrtContract α) (k : NormKind) (r : List α) (h : ∃ x ∈ r, x ≠ 0) :
+    rowNorm k (scaleRowBy (rowNorm k r) r) = 1 := by
+  have hpos := rowNorm_pos hsq k r h
+  unfold scaleRowBy
+  rw [if_pos hpos]
+  cases k
+  · show normL1 (r.map fun x => x / normL1 r) = 1
+    have hp : 0 < normL1 r := hpos
+    rw [normL1_eq, List.map_map]
+    have e : (r.map ((fun x => |x|) ∘ fun x => x / normL1 r)) = (r.map fun x => |x|).map (fun x => x / normL1 r) := by
+      rw [List.map_map]; apply List.map_congr_left; intro x _
+      simp only [Function.comp_def, abs_div, abs_of_pos hp]
+    rw [e, sum_map_div, ← normL1_eq]; exact div_self hp.ne'
+  · show normL2 (r.map fun x => x / normL2 r) = 1
+    have hp : 0 < normL2 r := hpos
+    have hN : normL2 r * normL2 r = sumSquares r := by
+      unfold normL2; rw [sumSquares_eq]; exact (hsq _ (sum_sq_nonneg r)).1
+    have hss : sumSquares (r.map fun x => x / normL2 r) = 1 := by
+      rw [sumSquares_eq, List.map_map]
+      have e : (r.map ((fun x => x * x) ∘ fun x => x / normL2 r)) =
+          (r.map fun x => x * x).map (fun x => x / (normL2 r * normL2 r)) := by
+        rw [List.map_map]; apply List.map_congr_left; intro x _
+        simp only [Function.comp_def]; field_simp
+      rw [e, sum_map_div, ← sumSquares_eq, hN]
+      exact div_self (by rw [← hN]; positivity)
+    show Transc.sqrt (sumSquares (r.map fun x => x / normL2 r)) = 1
+    rw [hss]; exact sqrt_one_of hsq
+  · show normMax (r.map fun x => x / normMax r) = 1
+    have hp : 0 < normMax r := hpos
+    obtain ⟨_, hle, hatt⟩ := normMax_spec r
+    obtain ⟨_, hle', hatt'⟩ := normMax_spec (r.map fun x => x / normMax r)
+    have hall : ∀ v ∈ r.map (fun x => x / normMax r), |v| ≤ 1 := by
+      intro v hv
+      obtain ⟨x, hx, rfl⟩ := List.mem_map.mp hv
+      rw [abs_div, abs_of_pos hp, div_le_one hp]; exact hle x hx
+    have hge : 1 ≤ normMax (r.map fun x => x / normMax r) := by
+      rcases hatt with h' | ⟨x, hx, h'⟩
+      · exact absurd h' hp.ne'
+      · have : |x / normMax r| = 1 := by rw [abs_div, abs_of_pos hp, ← h']; exact div_self hp.ne'
+        rw [← this]; exact hle' _ (List.mem_map.mpr ⟨x, hx, rfl⟩)
+    rcases hatt' with h' | ⟨w, hw, h'⟩
+    · rw [h'] at hge; linarith
+    · exact le_antisymm (by rw [h']; exact hall w hw) hge
+
+/-- **an all-zero row is returned unchanged** (the fixed code never divides by a norm that is
+not positive; before the fix this row became NaN) -/
+theorem norm_zero_row_unchanged (hsq : SqrtContract α) (k : NormKind) (r : List α)
+    (h : ∀ x ∈ r, x = 0) : scaleRowBy (rowNorm k r) r = r := by
+  have hz : rowNorm k r = 0 := by
+    have hr : r = r.map fun _ => (0 : α) := by
+      conv_lhs => rw [← List.map_id r]
+      apply List.map_congr_left; intro x hx; simp [h x hx]
+    cases k
+    · show normL1 r = 0
+      rw [normL1_eq, hr]; simp
+    · show normL2 r = 0
+      unfold normL2; rw [sumSquares_eq, hr]; simp [sqrt_zero_of hsq]
+    · show normMax r = 0
+      rcases (normMax_spec r).2.2 with h' | ⟨x, hx, h'⟩
+      · exact h'
+      · rw [h', h x hx, abs_zero]
+  unfold scaleRowBy; rw [hz]; simp
+
+/-- every division performed by the norm scaler has a positive divisor -/
+theorem norm_divisor_positive (nrm : α) (r : List α) (h : scaleRowBy nrm r ≠ r) : 0 < nrm := by
+  unfold scaleRowBy at h
+  by_contra hc
+  rw [if_neg hc] at h
+  exact h rfl
+
+end norm
 
 end LinfaSpec.Props.C16
